@@ -290,8 +290,8 @@ KEY_EXEMPT_PARAMS = {
 }
 
 
-def _key_completeness(ctx):
-    ctx.rule('C14.R1', 'key completeness of the explicit memo tables: the key tuple contains every parameter of the '
+def _key_completeness(ctx, RULE='C14.R1', only_check_expr=False):
+    ctx.rule(RULE, 'key completeness of the explicit memo tables: the key tuple contains every parameter of the '
              'memoised computation, except parameters that only influence the result through a callee whose '
              'cacheability flag is conjoined into the flag that guards the store')
     repo = ctx.repo
@@ -304,11 +304,11 @@ def _key_completeness(ctx):
     in_key = {dotted(e) for e in keys[0].value.elts}
     for p in params_of(fn):
         if p in in_key:
-            ctx.ob('C14.R1', f'make_check_expr:param:{p}', m.where(keys[0]), f'{p} is part of the memo key', True)
+            ctx.ob(RULE, f'make_check_expr:param:{p}', m.where(keys[0]), f'{p} is part of the memo key', True)
             continue
         # allowed only for the reviewed context parameters whose influence is tracked by the cacheability flag
         if p not in KEY_EXEMPT_PARAMS:
-            ctx.ob('C14.R1', f'make_check_expr:param:{p}', m.where(keys[0]), f'{p} is part of the memo key', False,
+            ctx.ob(RULE, f'make_check_expr:param:{p}', m.where(keys[0]), f'{p} is part of the memo key', False,
                    f'{p} is not in CACHE_KEY = {norm(keys[0].value)}: a later call with another {p} is answered with the '
                    f'expression generated for the first one')
             continue
@@ -322,10 +322,12 @@ def _key_completeness(ctx):
         stores = [a for a in walk_shallow(fn) if isinstance(a, ast.Assign) and isinstance(a.targets[0], ast.Subscript)
                   and dotted(a.targets[0].value) == '_HINT_CONF_TO_CHECK_EXPR']
         guarded = bool(stores) and all(isinstance(parent(s), ast.If) and 'is_check_expr_cacheable' in norm(parent(s).test) for s in stores)
-        ctx.ob('C14.R1', f'make_check_expr:param:{p}', m.where(keys[0]),
+        ctx.ob(RULE, f'make_check_expr:param:{p}', m.where(keys[0]),
                f'{p} is outside the key but only reaches the result through sanify_hint_child, whose cacheability '
                f'flag is conjoined into the flag guarding the store', conj and only_reinit and guarded,
                f'conjoined: {conj}; only passed on: {only_reinit}; store guarded by the flag: {guarded}')
+    if only_check_expr:
+        return
     # make_func_checker
     m2 = repo.mod('beartype._check.checkmake')
     f2 = m2.defs.get('make_func_checker')
@@ -335,13 +337,13 @@ def _key_completeness(ctx):
     in_key = {dotted(e) for e in keys[0].value.elts}
     for p in params_of(f2):
         ok = p in in_key or p in ('make_code_check', 'hint_conf_exception_prefix_to_func_checker')
-        ctx.ob('C14.R1', f'make_func_checker:param:{p}', m2.where(keys[0]),
+        ctx.ob(RULE, f'make_func_checker:param:{p}', m2.where(keys[0]),
                f'{p} is in the key (or is the factory / its own table, paired by C03.R5)', ok, f'key = {sorted(in_key)}')
     stores = [a for a in walk_shallow(f2) if isinstance(a, ast.Assign) and isinstance(a.targets[0], ast.Subscript)
               and dotted(a.targets[0].value) == 'hint_conf_exception_prefix_to_func_checker']
     ok = bool(stores) and all(isinstance(parent(s), ast.If) and 'is_func_cacheable' in norm(parent(s).test)
                               and 'is_check_expr_cacheable' in norm(parent(s).test) for s in stores)
-    ctx.ob('C14.R1', 'make_func_checker:store-guarded', m2.where(f2),
+    ctx.ob(RULE, 'make_func_checker:store-guarded', m2.where(f2),
            'the checker is stored only when the key is hashable and the expression is cacheable', ok, '')
     # decorator cache
     m3 = repo.mod('beartype._decor.decorcache')
@@ -349,14 +351,14 @@ def _key_completeness(ctx):
     if f3 is not None:
         stores = [a for a in ast.walk(f3) if isinstance(a, ast.Assign) and any(isinstance(t, ast.Subscript) and dotted(t.value) == '_bear_conf_to_decor' for t in a.targets)]
         ok = bool(stores) and all(dotted([t for t in a.targets if isinstance(t, ast.Subscript)][0].slice) == 'conf' for a in stores)
-        ctx.ob('C14.R1', 'decorcache:keyed-by-conf', m3.where(f3), 'the configured decorator is memoised by its configuration', ok, '')
+        ctx.ob(RULE, 'decorcache:keyed-by-conf', m3.where(f3), 'the configured decorator is memoised by its configuration', ok, '')
     # HintSane metaclass
     m4 = repo.mod('beartype._check.cls.hint.hintsane')
     f4 = repo.find_def(m4.name, '_HintSaneMetaclass.__call__')
     stores = [a for a in walk_shallow(f4) if isinstance(a, ast.Assign) and any(isinstance(t, ast.Subscript) and dotted(t.value) == '_HINT_TO_HINTSANE' for t in a.targets)]
     ok = bool(stores) and all(any(isinstance(p_, ast.If) and norm(p_.test) == 'kwargs' and s in _descendants(p_.orelse)
                                   for p_ in walk_shallow(f4) if isinstance(p_, ast.If)) for s in stores)
-    ctx.ob('C14.R1', 'HintSane:memoised-only-without-kwargs', m4.where(f4),
+    ctx.ob(RULE, 'HintSane:memoised-only-without-kwargs', m4.where(f4),
            'HintSane objects are memoised by hint only when no further field is passed', ok, '')
 
 
